@@ -150,7 +150,7 @@ func (e *c15env) validate(raw []byte, m settingsMask) (rej quickfix.MessageRejec
 }
 
 var mutationKinds = []string{"unknown-msgtype", "missing-required-top", "missing-required-member", "undefined-known", "undefined-unknown", "undefined-user",
-	"ill-typed", "enum", "empty", "count+1", "count-1", "swap-members", "header-in-body", "body-in-header", "duplicate"}
+	"ill-typed", "enum", "empty", "count+1", "count-1", "swap-members", "header-in-body", "body-in-header", "duplicate", "duplicate-tolerated-unknown", "duplicate-tolerated-user"}
 
 type expectation struct {
 	reasons  []int
@@ -334,10 +334,22 @@ func (e *c15env) run(ch specxml.Chooser, kind string, mask settingsMask, replay 
 			refTagRelax = 1
 		}
 		removeAt(i)
-	case "undefined-known", "undefined-unknown", "undefined-user":
+	case "undefined-known", "undefined-unknown", "undefined-user", "duplicate-tolerated-unknown", "duplicate-tolerated-user":
 		var tag int
 		var val string
+		base := kind
 		switch kind {
+		case "duplicate-tolerated-unknown":
+			// the settings tolerate the undefined field itself; its repetition is the single defect
+			base = "undefined-unknown"
+			mask |= 4
+		case "duplicate-tolerated-user":
+			base = "undefined-user"
+			mask |= 8
+		}
+		s = mask.settings()
+		where = fmt.Sprintf("%s %s(%s) settings[%s]", e.dict, e.md.Name, e.md.MsgType, mask)
+		switch base {
 		case "undefined-known":
 			var cands []*specxml.FieldDecl
 			for _, name := range e.dp.spec.FieldOrder {
@@ -374,10 +386,22 @@ func (e *c15env) run(ch specxml.Chooser, kind string, mask settingsMask, replay 
 		if len(pos) == 0 {
 			pos = []int{topStarts[len(topStarts)-1]}
 		}
-		insertAt(pick(pos), fixwire.F(tag, val))
-		if kind == "undefined-known" {
+		at := pick(pos)
+		insertAt(at, fixwire.F(tag, val))
+		switch {
+		case base != kind:
+			// second occurrence: adjacent, or at the end of the body
+			if ch.Intn(2) == 0 || len(ann) == 0 || ann[len(ann)-1].group != nil {
+				insertAt(at+1, fixwire.F(tag, "y"))
+				c.Class("duplicate-tolerated:adjacent")
+			} else {
+				insertAt(len(mBody), fixwire.F(tag, "y"))
+				c.Class("duplicate-tolerated:apart")
+			}
+			exp = expectation{reasons: []int{13}, tags: []int{tag}}
+		case kind == "undefined-known":
 			exp = expectation{reasons: []int{2}, tags: []int{tag}}
-		} else {
+		default:
 			exp = expectation{reasons: []int{0}, tags: []int{tag}}
 		}
 	case "ill-typed":
